@@ -10,6 +10,7 @@ import (
 
 	"github.com/frobnitzem/go-p9p/zzverif/core"
 	"github.com/frobnitzem/go-p9p/zzverif/explore"
+	"github.com/frobnitzem/go-p9p/zzverif/vatomic"
 	"github.com/frobnitzem/go-p9p/zzverif/vsched"
 	"github.com/frobnitzem/go-p9p/zzverif/vsync"
 )
@@ -60,6 +61,20 @@ func selfScenarios() []*explore.Scenario {
 				s.x = r + 1
 			})
 		}
+	})
+	// an atomic flag read between two hooked operations of another task:
+	// both orders must be explored (vatomic makes atomics scheduling points)
+	add("atomicflag", func(s *selfState) {
+		var f vatomic.Bool
+		var m vsync.Mutex
+		vsched.Go("reader", func() {
+			m.Lock()
+			m.Unlock()
+			a := f.Load()
+			b := f.Load()
+			s.out = append(s.out, fmt.Sprint(a, b))
+		})
+		vsched.Go("setter", func() { f.Store(true) })
 	})
 	add("yields3", func(s *selfState) {
 		for i := 0; i < 2; i++ {
@@ -249,6 +264,10 @@ func selftest(c *core.Ctx) {
 	expectSet("lostupdate@0", st, "x=2 ")
 	st = run("lostupdate", 1, 0, true)
 	expectSet("lostupdate@1", st, "x=2 ", "x=1 ")
+	st = run("atomicflag", 0, 0, true)
+	expectSet("atomicflag@0", st, "x=0 false false", "x=0 true true")
+	st = run("atomicflag", 1, 0, true)
+	expectSet("atomicflag@1", st, "x=0 false false", "x=0 true true", "x=0 false true")
 	st = run("yields3", 99, 0, true)
 	// two tasks, each start + 3 yields = 4 moves: C(8,4) = 70 interleavings
 	if st.Execs != 70 {
@@ -293,14 +312,19 @@ func selftest(c *core.Ctx) {
 		fail("choose@d2", "%d outcomes, want 6", len(st.Outcomes))
 	}
 	// the happens-before cache must not change the set of outcomes
-	for _, name := range []string{"k2[t1 t1]async", "k2[t1 t2]async"} {
-		sc := Lookup("C06", name)
+	for _, cc := range []struct {
+		prop, name string
+		bound      int
+	}{{"C06", "k2[t1 t1]async", 1}, {"C06", "k2[t1 t2]async", 1}, {"C05", "2x1~d", 2}, {"C07", "flush-reuse/ignore~d", 2}} {
+		name := cc.name
+		sc := Lookup(cc.prop, name)
 		if sc == nil {
 			fail("cache", "scenario %s missing", name)
 			continue
 		}
-		a := explore.Local(sc, explore.Options{PBound: 2, NoCache: true, Deadline: c.Deadline}, nil)
-		b := explore.Local(sc, explore.Options{PBound: 2, Deadline: c.Deadline}, nil)
+		dl := time.Now().Add(20 * time.Second)
+		a := explore.Local(sc, explore.Options{PBound: cc.bound, NoCache: true, Deadline: dl}, nil)
+		b := explore.Local(sc, explore.Options{PBound: cc.bound, Deadline: dl}, nil)
 		c.Count(a.Execs+b.Execs, b.States, a.Steps+b.Steps, a.Execs+b.Execs-b.Pruned)
 		ka, kb := keys(a.Outcomes), keys(b.Outcomes)
 		if !a.Complete || !b.Complete {
